@@ -53,6 +53,11 @@ class Ctx:
         self.period = {}  # sym -> period in quarter units (reducible atoms)
         self.repl = {}  # sym -> replacement poly (dict) for sym**period
         self.redmask = 0
+        self.defmask = 0  # all defined atoms
+        self.eagermask = 0  # eagerly rewritten ones
+        self.defs = {}
+        self.eager = set()
+        self.folds = {}
         self.factors = []  # fid -> poly dict (content-free)
         self.fkey = {}  # frozenset(items) -> fid
         self.frad = {}  # fid -> rad sym
@@ -149,6 +154,31 @@ class Ctx:
             self.set_reducible(s, QU, {self.one: p})
         return self.primes[p]
 
+    def define(self, name, poly, fold=False):
+        """a positive atom t with t**1 := poly (an integer-coefficient polynomial in other symbols), e.g.
+        b := zeta - a.  Integer powers are rewritten, fractional powers t**(k/4) stay as monomials."""
+        if name in self.byname:
+            return self.byname[name]
+        s = self.sym(name, "def")
+        # integer powers are rewritten lazily (after additions and before comparisons), never inside
+        # products, so that (2 b / pi)**(3/4) still sees the monomial b
+        self.period[s] = QU
+        self.repl[s] = dict(poly)
+        bits = (FMASK & ~(QU - 1)) << (FIELD * s) if not self.sparse else 0
+        self.defmask |= bits
+        self.defs[s] = dict(poly)
+        if fold:
+            # name := poly is recognised when the code forms poly (a + b -> zeta) and expanded again
+            # only by the equality decision
+            global _WITH_DEFS
+            full = p_reduce_defs(dict(poly))
+            self.folds[p_key(full)] = s
+        else:
+            self.eager.add(s)
+            self.eagermask |= bits
+        self.side.append(("def-positive", s))
+        return s
+
     def imag_sym(self):
         if self.imag is None:
             self.imag = self.sym("I", "imag")
@@ -241,21 +271,133 @@ def p_mul(a, b):
     return r
 
 
+_WITH_DEFS = [0]  # 0: atoms only, 1: + eagerly rewritten definitions, 2: + every definition
+
+
 def _needs_reduce(m):
     C = CTX
     if C.sparse:
         per = C.period
         for x in m:
             s = x >> FIELD
-            if s in per and (x & FMASK) >= per[s]:
+            if s in per and (x & FMASK) >= per[s] and _def_active(C, s):
                 return True
         return False
+    lvl = _WITH_DEFS[0]
+    if lvl == 2:
+        return (m & (C.redmask | C.defmask)) != 0
+    if lvl == 1:
+        return (m & (C.redmask | C.eagermask)) != 0
     return (m & C.redmask) != 0
 
 
-def p_reduce(r):
-    """apply atom relations (t**period -> replacement) and merge exp atoms, drop zero terms"""
+def _def_active(C, s):
+    if s not in C.defs:
+        return True
+    lvl = _WITH_DEFS[0]
+    return lvl == 2 or (lvl == 1 and s in C.eager)
+
+
+def p_reduce_defs(r, level=2):
+    """additionally rewrite integer powers of defined atoms (b -> zeta - a); level 1: eager ones only"""
     C = CTX
+    if not C.defs or (level == 1 and not C.eager):
+        return r
+    if not C.sparse:
+        dm = C.defmask if level == 2 else C.eagermask
+        for m in r:
+            if m & dm:
+                break
+        else:
+            return r
+    old = _WITH_DEFS[0]
+    _WITH_DEFS[0] = level
+    try:
+        return p_reduce(r)
+    finally:
+        _WITH_DEFS[0] = old
+
+
+def fold_small(n):
+    """recognise a small numerator as (monomial) * (a registered definition), e.g. a P + b P -> zeta P"""
+    C = CTX
+    if not C.folds or not (2 <= len(n) <= 8):
+        return n
+    full = p_reduce_defs(n, 2)
+    if len(full) < 2:
+        return full
+    g, mc, prim = _split_poly(full)
+    s = C.folds.get(p_key(prim))
+    sign = 1
+    if s is None:
+        s = C.folds.get(p_key({m: -c for m, c in prim.items()}))
+        sign = -1
+    if s is None:
+        return full if len(full) < len(n) else n
+    return {C.mono(list(mc) + [(s, QU)]) if not any(t == s for t, _ in mc) else C.mono([(t, e + (QU if t == s else 0)) for t, e in mc]): g * sign}
+
+
+def p_reduce(r):
+    """apply atom relations (t**period -> replacement), drop zero terms"""
+    C = CTX
+    if not C.sparse:
+        lvl = _WITH_DEFS[0]
+        mask = C.redmask | (C.defmask if lvl == 2 else C.eagermask if lvl == 1 else 0)
+        for m in r:
+            if m & mask:
+                break
+        else:
+            if 0 in r.values():
+                return {m: c for m, c in r.items() if c}
+            return r
+        red = [(FIELD * s, per, s) for s, per in C.period.items() if _def_active(C, s)]
+        pwcache = C.meta.setdefault("pwcache", {})
+        out = {}
+        work = []
+        for m, c in r.items():
+            if not c:
+                continue
+            if m & mask:
+                work.append((m, c))
+            else:
+                out[m] = out.get(m, 0) + c
+        guard = 0
+        while work:
+            guard += 1
+            if guard > 50_000_000:
+                raise Undecided("reduction does not terminate")
+            m, c = work.pop()
+            for shift, per, s in red:
+                e = (m >> shift) & FMASK
+                if e >= per:
+                    k = e // per
+                    base = m - ((k * per) << shift)
+                    rp = C.repl[s]
+                    if len(rp) == 1 and 0 in rp:
+                        terms = ((base, c * rp[0] ** k),)
+                    else:
+                        pw = pwcache.get((s, k))
+                        if pw is None:
+                            pw = {0: 1}
+                            for _ in range(k):
+                                pw = _p_mul_raw(pw, rp)
+                            pwcache[(s, k)] = pw
+                        terms = [(base + m2, c * c2) for m2, c2 in pw.items()]
+                    break
+            else:
+                raise AssertionError("mask set but no reducible field")
+            for m2, c2 in terms:
+                if not c2:
+                    continue
+                if m2 & mask:
+                    work.append((m2, c2))
+                else:
+                    v = out.get(m2, 0) + c2
+                    if v:
+                        out[m2] = v
+                    else:
+                        del out[m2]
+        return out
     work = []
     out = {}
     for m, c in r.items():
@@ -276,6 +418,8 @@ def p_reduce(r):
         mult = None
         for s, e in its:
             per = C.period.get(s)
+            if per is not None and not _def_active(C, s):
+                per = None
             if mult is None and per is not None and e >= per:
                 k, e2 = divmod(e, per)
                 if e2:
@@ -465,6 +609,11 @@ def _s_add(x, y):
         return x
     di, dm, df, cx, cy = _den_lcm(x, y)
     n = p_add(_apply_cof(x.n, cx), _apply_cof(y.n, cy))
+    if CTX.defs:
+        if CTX.eager:
+            n = p_reduce_defs(n, 1)
+        if CTX.folds:
+            n = fold_small(n)
     return _norm(Value(n, di, dm, df))
 
 
@@ -595,15 +744,17 @@ def _inv_monomial(c, its):
     dm = []
     for s, e in its:
         per = C.period.get(s)
-        if per is None:
+        if per is None or s in C.defs:
             dm.append((s, e))
         else:
-            # 1/t^e = t^(per-e) / repl
-            assert 0 < e < per
+            # 1/t^e with e = k*per + r :  t^(per-r) / repl^(k+1)   (r > 0),   1 / repl^k   (r = 0)
+            k, r = divmod(e, per)
             rp = C.repl[s]
-            tpow = Value({C.mono([(s, per - e)]): 1})
-            num = v_mul(num, tpow)
-            num = v_mul(num, v_inv(Value(dict(rp))))
+            if r:
+                num = v_mul(num, Value({C.mono([(s, per - r)]): 1}))
+                k += 1
+            if k:
+                num = v_mul(num, v_pow_int(v_inv(Value(dict(rp))), k))
     sgn = 1 if c > 0 else -1
     res = Value({C.one: sgn}, abs(c), C.mono(dm))
     return v_mul(num, res)
@@ -691,6 +842,8 @@ def _mono_pow_frac(its, e):
             raise Undecided("exponent of %s not representable" % C.names[s])
         ne = int(ne)
         if kind in ("pos",):
+            out.append((s, ne))
+        elif kind == "def":
             out.append((s, ne))
         elif kind == "prime":
             res = v_mul(res, v_pow_int(Value({C.mono([(s, 1)]): 1}), ne)) if ne else res
@@ -780,11 +933,18 @@ def _s_pow(x, e):
 
 
 def _s_eq(x, y):
+    if CTX.defs and (not x.n or not y.n):
+        return not p_reduce_defs(x.n) and not p_reduce_defs(y.n)
     if not x.n or not y.n:
         return (not x.n) and (not y.n)
     di, dm, df, cx, cy = _den_lcm(x, y)
     a = _apply_cof(x.n, cx)
     b = _apply_cof(y.n, cy)
+    if CTX.defs:
+        if a == b:
+            return True
+        d = p_reduce_defs(p_sub(a, b))
+        return not d
     if len(a) != len(b):
         return False
     return a == b
@@ -818,6 +978,11 @@ def _s_exp(u):
     C.exps.append((s, u))
     C.expsyms[s] = u
     C.expmask = 1
+    if not C.sparse:
+        C.expfields = getattr(C, "expfields", 0) | (FMASK << (FIELD * s))
+        if not hasattr(C, "expsingle"):
+            C.expsingle = set()
+        C.expsingle.add(QU << (FIELD * s))
     return Value({C.mono([(s, QU)]): 1})
 
 
@@ -842,6 +1007,32 @@ def _s_merge_exps(v):
     expset = set(C.expsyms)
     n = {}
     changed = False
+    if not C.sparse:
+        ef, single = C.expfields, C.expsingle
+        for m in v.n:
+            x = m & ef
+            if x and x not in single:
+                break
+        else:
+            return v
+    if not C.sparse:
+        cache = C.meta.setdefault("expmerge_packed", {})
+        for m, c in v.n.items():
+            x = m & ef
+            if not x or x in single:
+                n[m] = n.get(m, 0) + c
+                continue
+            hit = cache.get(x)
+            if hit is None:
+                arg = Value({})
+                for s, e in C.items(x):
+                    arg = v_add(arg, v_mul(C.expsyms[s], Value.const(Fraction(e, QU))))
+                at = v_exp(arg)
+                hit = cache[x] = next(iter(at.n.items())) if at.n else (0, 1)
+                ef, single = C.expfields, C.expsingle
+            k = (m - x) + hit[0]
+            n[k] = n.get(k, 0) + c * hit[1]
+        return Value({m: c for m, c in n.items() if c}, v.di, v.dm, v.df)
     for m, c in v.n.items():
         its = C.items(m)
         es = [(s, e) for s, e in its if s in expset]
@@ -849,10 +1040,14 @@ def _s_merge_exps(v):
             n[m] = n.get(m, 0) + c
             continue
         changed = True
-        arg = Value({})
-        for s, e in es:
-            arg = v_add(arg, v_mul(C.expsyms[s], Value.const(Fraction(e, QU))))
-        at = v_exp(arg)
+        ck = tuple(sorted(es))
+        cache = C.meta.setdefault("expmerge", {})
+        at = cache.get(ck)
+        if at is None:
+            arg = Value({})
+            for s, e in es:
+                arg = v_add(arg, v_mul(C.expsyms[s], Value.const(Fraction(e, QU))))
+            at = cache[ck] = v_exp(arg)
         rest = C.mono([(s, e) for s, e in its if s not in expset])
         ((m2, c2),) = at.n.items() if at.n else ((C.one, 1),)
         k = C.mmul(rest, m2)
@@ -873,6 +1068,8 @@ def _s_equal(x, y):
 
 def _exp_den_up(v):
     C = CTX
+    if not C.sparse and not (v.dm & getattr(C, "expfields", 0)):
+        return v
     its = C.items(v.dm)
     es = [(s, e) for s, e in its if s in C.expsyms]
     if not es:
@@ -1118,6 +1315,8 @@ def _s_evalv(v, env, F):
             r = F.sqrt(evalp(C.factors[C.radf[s]]))
         elif kind == "gsq":
             r = F.sqrt(evalv([a for t, a in C.gsq if t == s][0], env, F))
+        elif kind == "def":
+            r = evalp(C.defs[s])
         elif kind == "imag":
             r = F.imag()
         elif kind == "exp":
